@@ -12,9 +12,7 @@
            actions = comma separated  scr.<id>.<hex content> sca.<id>.<tag> scn. srj. str. sta. scj. ser. tlu tld tls tlf | -
            handler call = R|A|N|J (ProcessConfReq/Ack/Nak/Rej) followed by the hex of the options passed | -
            a conc case prints the prefix steps, one combined step for the pair, then "alt=ok term=ok".
-   argv[3] = variant: repaired (all fix patches)
-             | restore_unfixed (Restore leaves restartCount 0) | late_unfixed (late timer callbacks run Timeout())
-             | legacy: defective (fsm.go before d6fc4b1/488e192) | cells_unfixed | ncp_unfixed.
+   argv[3] is ignored: there is one model, the behaviour of /repo HEAD (all findings fixed).
    Every step of the repaired variant is also re-checked against the RFC table by the extracted
    [conformsb] (guards the extraction); a failure prints MODELBUG. *)
 let z_of_int (i : int) : z = if i = 0 then Z0 else if i > 0 then Zpos (pos_of_int i) else Zneg (pos_of_int (-i))
@@ -57,15 +55,9 @@ let rec split_at x = function
 
 let () =
   let lines = read_lines Sys.argv.(1) in
-  let vname = if Array.length Sys.argv > 3 then Sys.argv.(3) else "repaired" in
-  let v = match vname with
-    | "defective" -> { fix_cells = false; fix_ncp = false }
-    | "cells_unfixed" -> { fix_cells = false; fix_ncp = true }
-    | "ncp_unfixed" -> { fix_cells = true; fix_ncp = false }
-    | _ -> { fix_cells = true; fix_ncp = true } in
-  let legacy = List.mem vname ["defective"; "cells_unfixed"; "ncp_unfixed"] in
-  let restore_fixed = not (legacy || vname = "restore_unfixed") in
-  let late_fixed = not (legacy || vname = "late_unfixed") in
+  let vname = "repaired" in
+  let v = { fix_cells = true; fix_ncp = true } in
+  let restore_fixed = true and late_fixed = true in
   List.iter (fun line ->
     match tokens line with
     | kind0 :: mc :: mt :: ops ->
